@@ -2,7 +2,7 @@
 translation to real EQL expressions, seeded random generators, exhaustive enumerators and meaning-preserving rewriters.
 
 value  ::= ["lit", scalar] | ["tup", [scalar...]] | ["v", var_index, [step...]]
-step   ::= ["a", name] | ["i", key] | ["c", method, [args...]]
+step   ::= ["a", name] | ["i", key] | ["c", method, [args...]] | ["ck", method, {kw: value}]
 cond   ::= ["cmp", op, value, value]
          | ["in", item_value, container_value]         built as in_(item, container)
          | ["has", container_value, item_value]        built as contains(container, item)
@@ -43,6 +43,8 @@ def ev(v, asg):
             o = getattr(o, st[1])
         elif k == "i":
             o = o[st[1]]
+        elif k == "ck":
+            o = getattr(o, st[1])(**st[2])
         else:
             o = getattr(o, st[1])(*st[2])
     return o
@@ -151,6 +153,8 @@ def bval(v, xs):
             o = getattr(o, st[1])
         elif k == "i":
             o = o[st[1]]
+        elif k == "ck":
+            o = getattr(o, st[1])(**st[2])
         else:
             o = getattr(o, st[1])(*st[2])
     return o
@@ -210,7 +214,8 @@ DEFAULT_OPTS = dict(neg=True, preds=True, member=True, calls=True, index=True, s
 
 def _num_paths(kind):
     if kind in ("P", "E"):
-        return [[["a", "a"]], [["a", "b"]], [["a", "d"], ["i", "k"]], [["c", "inc", []]], [["c", "getb", []]]]
+        return [[["a", "a"]], [["a", "b"]], [["a", "d"], ["i", "k"]], [["c", "inc", []]], [["c", "getb", []]],
+                [["a", "t"], ["i", 0]]]
     return [[["a", "a"]], [["a", "b"]], [["a", "p"], ["a", "a"]], [["a", "p"], ["a", "b"]], [["c", "inc", []]],
             [["a", "p"], ["a", "d"], ["i", "k"]]]
 
@@ -224,6 +229,8 @@ def gen_num(rng, kinds, o, allow_lit=True):
         paths = [p for p in paths if not any(s[0] == "c" for s in p)]
     if not o["index"]:
         paths = [p for p in paths if not any(s[0] == "i" for s in p)]
+    if o.get("falsy"):      # falsy worlds contain empty tuples: x.t[0] would raise in plain Python as well
+        paths = [p for p in paths if p != [["a", "t"], ["i", 0]]]
     return ["v", vi, rng.choice(paths)]
 
 
@@ -285,8 +292,10 @@ def gen_leaf(rng, kinds, o):
         vi = rng.randrange(len(kinds))
         pp = _p_path(kinds[vi])
         kk = rng.random()
-        if kk < 0.4:
+        if kk < 0.25:
             return ["truth", ["v", vi, [["c", "big", [rng.randint(0, 3)]]]]]
+        if kk < 0.4:
+            return ["truth", ["v", vi, [["ck", "big", {"k": rng.randint(0, 3)}]]]]
         if kk < 0.6 and o["strings"]:
             return ["truth", ["v", vi, pp + [["a", "s"], ["c", "startswith", [rng.choice(["x", "y", "xy"])]]]]]
         if kk < 0.8:
